@@ -1547,4 +1547,31 @@ theorem refusal_is_typed (chain : List Level) (n : Names)
 
 example : validateF (NewF d8Chain) d8Names = .deny .notPermitted .dns := by decide
 
+/-! ## 17. Option order of an embedded authority -/
+
+/-- **icfirst_refuted**: `WithX509IntermediateCerts(issuing, policy)` followed by
+    `WithX509Signer(issuing, key)` leaves the list `[issuing, policy, issuing]`; `init` looks for the
+    root that issued the *last* element, the issuing CA, finds none, and the root's constraints
+    never reach the engine: the root excludes `bad.example.com`, the CA allows it. -/
+theorem icfirst_refuted :
+    ¬ ∀ (ints roots : List Cert) (n : Names) (r : Cert), r ∈ roots →
+        authorityValidateF (intsIcFirst ints) roots n = .allow →
+        specAccept ((ints ++ [r]).map (·.nc)) n = true := by
+  intro h
+  exact absurd
+    (h [caCert "issuing" "policy" "k2" "k1" {}, caCert "policy" "root" "k1" "k0" {}]
+       [caCert "root" "root" "k0" "" { xDNS := [s "bad.example.com"] } true]
+       { dns := [s "x.bad.example.com"] }
+       (caCert "root" "root" "k0" "" { xDNS := [s "bad.example.com"] } true) (by simp) (by decide))
+    (by decide)
+
+/-- with the signer option first the same configuration refuses the name -/
+example : authorityValidateF [caCert "issuing" "policy" "k2" "k1" {}, caCert "policy" "root" "k1" "k0" {}]
+    [caCert "root" "root" "k0" "" { xDNS := [s "bad.example.com"] } true]
+    { dns := [s "x.bad.example.com"] } = .deny .excluded .dns := by decide
+
+/-- the constraints of every intermediate do reach the engine in both orders -/
+theorem icfirst_keeps_intermediates (ints : List Cert) (c : Cert) (hc : c ∈ ints) :
+    c ∈ intsIcFirst ints := List.mem_append_left _ hc
+
 end Verif.Constraints
